@@ -178,6 +178,23 @@ func cmdRun(args []string) int {
 			SolverS: ex.sstats.Time.Seconds(), WallS: time.Since(t0).Seconds(), Steps: ex.steps, Reach: ex.reach,
 			Violations: len(ex.violations), Unknowns: ex.unknowns, Unsupported: ex.unsupported, EngineErrs: ex.engineErrs, Samples: ex.samples, Opts: e.Opts}
 		results = append(results, r)
+		if len(ex.forkSites) > 0 {
+			type kv struct {
+				k string
+				v int
+			}
+			var kvs []kv
+			for k, v := range ex.forkSites {
+				kvs = append(kvs, kv{k, v})
+			}
+			sort.Slice(kvs, func(i, j int) bool { return kvs[i].v > kvs[j].v })
+			for i, e := range kvs {
+				if i >= 25 {
+					break
+				}
+				fmt.Fprintf(os.Stderr, "fork %7d  %s\n", e.v, e.k)
+			}
+		}
 		es := 0
 		// confirmed violations
 		for i, v := range ex.violations {
